@@ -228,22 +228,25 @@ Definition rebalance (H : hashes) (order : list node) (st : state) : state * lis
 (* `for _attempt in 0..MAX_ROUTE_ATTEMPTS { assign; lookup; return or unassign }` written as a
    recursion on explicit fuel (one unit per loop test); running out of fuel is [Hang].
    [interf a] stands for whatever other tasks do to the registry between the assignment and
-   the lookup of attempt [a] (the code awaits in between); sequential histories use [no_interf]. *)
+   the lookup of attempt [a] (the code awaits in between); sequential histories use [no_interf].
+   [orders a] is the iteration order of the registry's HashMap during attempt [a]: another task's
+   register_node can rehash the map (hashbrown reserves a slot before it looks the key up, so even
+   re-inserting an existing key resizes a full table), hence the order may differ per attempt. *)
 Fixpoint route_write_gen (interf : N -> registry -> registry) (fuel : nat) (attempt : N)
-         (strat : strategy) (H : hashes) (order : list node) (st : state) (s : shard)
+         (strat : strategy) (H : hashes) (orders : N -> list node) (st : state) (s : shard)
   : state * outcome node :=
   match fuel with
   | O => (st, Hang)
   | S f =>
       if Consts.ROUTER_MAX_ROUTE_ATTEMPTS <=? attempt then (st, Failed E_NO_NODE)
       else
-        match assign_shard strat H order st s with
+        match assign_shard strat H (orders attempt) st s with
         | (st1, Done n) =>
             let st1' := with_reg st1 (interf attempt (st_reg st1)) in
             match aget N.eqb n (st_reg st1') with
             | Some i =>
                 if can_accept_writes i then (st1', Done n)
-                else route_write_gen interf f (attempt + 1) strat H order (unassign s st1') s
+                else route_write_gen interf f (attempt + 1) strat H orders (unassign s st1') s
             | None => (st1', Failed E_NO_NODE)
             end
         | other => other
@@ -257,7 +260,7 @@ Definition ROUTE_FUEL : nat := S (N.to_nat Consts.ROUTER_MAX_ROUTE_ATTEMPTS).
 
 Definition route_write (strat : strategy) (H : hashes) (order : list node) (st : state) (s : shard)
   : state * outcome node :=
-  route_write_gen no_interf ROUTE_FUEL 0 strat H order st s.
+  route_write_gen no_interf ROUTE_FUEL 0 strat H (fun _ => order) st s.
 
 (* what another task does to the registry while one route_write is between its assignment and
    its lookup (the harness injects exactly this at the pause point
@@ -274,6 +277,11 @@ Definition apply_regop (r : registry) (o : regop) : registry :=
   | RLoad n l => reg_update n (set_load l) r
   | RRemove n => adel N.eqb n r
   end.
+
+(* the order observed before the call is used by attempt 0, the order observed at the k-th pause
+   (after the other task acted) by attempt k+1 *)
+Definition order_at (orders : list (list node)) (attempt : N) : list node :=
+  nth (N.to_nat attempt) orders (last orders []).
 
 Definition interf_of (specs : list (list regop)) (attempt : N) (r : registry) : registry :=
   match specs with
@@ -293,7 +301,7 @@ Inductive op :=
 | ORemove (n : node)
 | ORebalance (order : list node)
 | ORoute (s : shard) (order : list node)
-| ORouteI (s : shard) (order : list node) (specs : list (list regop)).  (* route_write with interference *)
+| ORouteI (s : shard) (orders : list (list node)) (specs : list (list regop)).  (* route_write with interference *)
 
 Inductive result :=
 | RUnit
@@ -317,8 +325,8 @@ Definition step (strat : strategy) (H : hashes) (st : state) (o : op) : state * 
   | ORemove n => (with_reg st (adel N.eqb n (st_reg st)), RUnit)
   | ORebalance order => let (st', m) := rebalance H order st in (st', RMoves m)
   | ORoute s order => let (st', r) := route_write strat H order st s in (st', RRoute r)
-  | ORouteI s order specs =>
-      let (st', r) := route_write_gen (interf_of specs) ROUTE_FUEL 0 strat H order st s in (st', RRoute r)
+  | ORouteI s orders specs =>
+      let (st', r) := route_write_gen (interf_of specs) ROUTE_FUEL 0 strat H (order_at orders) st s in (st', RRoute r)
   end.
 
 Definition run_from (strat : strategy) (H : hashes) (st : state) (h : list op) : state :=
